@@ -213,9 +213,24 @@ def judge_rad(ns, ctx, c):
     S = ns.survey
     e1, n1 = c['p1']
     b, d, rot, psf = c['brg'], c['d'], c['rot'], c['psf']
+    barg, rarg = b, rot
+    if c.get('acls'):
+        # bearing and rotation held in angle classes (the library adds the two objects and converts the sum); the judged
+        # values are the angles the objects denote
+        try:
+            barg = ax.make_object(ns.angles, c['acls'][0], float(b))
+            rarg = ax.make_object(ns.angles, c['acls'][1], float(rot))
+        except ValueError:
+            ctx.count('argument_object_not_constructible')
+            return
+        db, dr = ax.denote(barg), ax.denote(rarg)
+        if db is None or dr is None:
+            raise core.Inconclusive('harness built an invalid HP numeral')
+        b, rot = float(db), float(dr)
+        ctx.count('radiations_with_angle_objects')
     ctx.judged()
     try:
-        e4, n4 = S.radiations(e1, n1, b, d, rot, psf)
+        e4, n4 = S.radiations(e1, n1, barg, d, rarg, psf)
         e0, n0 = S.radiations(e1, n1, b, d)
     except Exception as ex:
         ctx.violation('radiations:exception', c, {'exception': repr(ex)})
@@ -411,7 +426,15 @@ def gen_rad(rnd):
         if rnd.random() < 0.2:
             rot, psf = 0, 1
         if abs(e1) + abs(d * psf) <= LIM and abs(n1) + abs(d * psf) <= LIM:
-            return {'k': 'rad', 'cls': cls, 'p1': [e1, n1], 'brg': b, 'd': d, 'rot': rot, 'psf': psf}
+            c = {'k': 'rad', 'cls': cls, 'p1': [e1, n1], 'brg': b, 'd': d, 'rot': rot, 'psf': psf}
+            if rnd.random() < 0.12:
+                c['acls'] = [rnd.choice(ax.ANGLE_CLASSES), rnd.choice(ax.ANGLE_CLASSES)]
+                if rnd.random() < 0.5:
+                    # typed-looking values: whole minutes / seconds
+                    step = rnd.choice([60, 1, 3600])
+                    c['brg'] = round(b * 3600 / step) * step / 3600.0
+                    c['rot'] = round(float(rot) * 3600 / step) * step / 3600.0
+            return c
 
 
 def gen_polar(rnd):
@@ -716,6 +739,16 @@ def judge_disp(ns, ctx, c, mode=None):
     except (TypeError, ValueError, AttributeError):
         method = 'richardson'
         dnds = so.richardson(f, sig)
+    # the ambient indices themselves: the module documents Ciddor (1996); an independently typed evaluation of the published
+    # equations must agree within 0.01 ppm of the index (1.0 in the returned unit 1e-8; two orders below the 1 ppm the
+    # statement allows between the two forms of the correction)
+    op, og = so.ciddor_1996(lam, T, P, e, xc)
+    ctx.count('refractivity_against_independent_ciddor')
+    okp = ctx.ratio('phase_refractivity_vs_ciddor', abs(npp - op), 1.0)
+    okg = ctx.ratio('group_refractivity_vs_ciddor', abs(ngg - og), 1.0)
+    if not (okp and okg):
+        ctx.violation('refractivity:differs-from-ciddor-1996', c,
+                      {'phase': npp, 'phase_ciddor': op, 'group': ngg, 'group_ciddor': og, 'unit': '(n - 1) x 1e8', 'tolerance': 1.0})
     ctx.count('dispersion_identity')
     ctx.count('dispersion_by_' + method)
     want = npp + sig * dnds
@@ -745,7 +778,9 @@ def gen_disp(rnd):
 def selfcheck(ns, ctx, with_mpmath):
     try:
         res = so.selfcheck_tools()
-    except ValueError as ex:
+        res = dict(res) if isinstance(res, dict) else {'tools': res}
+        res['ciddor_group_minus_phase_plus_dispersion_rel'] = float('%.3g' % so.ciddor_selfcheck())
+    except (ValueError, AssertionError) as ex:
         raise core.Inconclusive('oracle self-check failed: %s' % ex)
     if with_mpmath:
         # second derivation of the derivative of the *library's* phase_refractivity: mpmath at 30 digits
